@@ -398,8 +398,8 @@ pub fn run(mut ctx: Ctx) -> ! {
              window between a side's Have and its PreSync/Done decision and to logs the remote needs; LogSync / TopicLogSync / TopicLogSync with \
              live mode; memory and SQLite stores; non-trivial = a mutation removed stored entries of a log the remote needs between the side's \
              Have and its PreSync/Done decision",
-            420,
-            14_000,
+            1_500,
+            40_000,
         )
         .min_nontrivial(0.15),
         move || strategy(authors, logs, ops),
